@@ -463,7 +463,17 @@ class RealBusModel(BusModel):
             self.cover["finalize_point_to_point"] += 1
             return self.check_p2p(h, ic)
         if isinstance(ic, wishbone.InterconnectShared):
-            decs = [ic.decoder]
+            dec = getattr(ic, "decoder", None)
+            ok = isinstance(dec, wishbone.Decoder) and getattr(dec, "_fragment", None) is not None
+            if ok:
+                st0 = dec._fragment.comb[:len(h.slaves)]
+                ok = len(st0) == len(h.slaves) and all(isinstance(s_, _Assign) and isinstance(s_.l, _Slice) and s_.l.start == i_ and s_.l.stop == i_ + 1
+                                                       for i_, s_ in enumerate(st0))
+            if not ok:
+                # not the structure this harness reads back (one Decoder with one slave_sel bit per slave): decide by behaviour
+                self.cover["shared_probed"] = self.cover.get("shared_probed", 0) + 1
+                return self.check_probe(h, ic)
+            decs = [dec]
         elif isinstance(ic, wishbone.Crossbar):
             decs = [m for _, m in ic._submodules if isinstance(m, wishbone.Decoder)]
             if len(decs) != len(h.masters):
